@@ -9,6 +9,7 @@ and routes.  Actual importability is not decided.
 """
 import ast
 
+from .. import totality
 from ..lattice import ir_family, reaching_classes
 from ..model import call_name, own_nodes, unparse
 from ..pathcond import path_info
@@ -37,12 +38,20 @@ EXPLANATION = (
     'get_imported_namespaces(consider_annotation_types=True), which keeps alias-only imports. '
     'R5: emitters cover all fields/tags (is_*, get_*, creators guarded by the Void test the '
     'right way round), every type gets <T>_validator, every route is emitted with its name, '
-    'version, deprecation flag, three validators and attrs, and listed in ROUTES.')
+    'version, deprecation flag, three validators and attrs, and listed in ROUTES.'
+    ' R6 (generator totality, stonelint.totality): python_types can only produce modules if it completes -- IR attribute reads are defined for every reaching class, raises/asserts are unreachable dispatch defaults, doc-tag defaults, configuration conditions or recorded preconditions.')
 ASSUMPTIONS = [
     'identifiers are not Python reserved words (as the property assumes)',
     'fmt_pascal / fmt_underscores are injective enough on spec identifiers (not decided)',
 ]
 
+
+TOTALITY_PRECONDITIONS = {
+    ('backends.python_helpers.class_name_for_annotation_type',
+     'assert isinstance(annotation_type, AnnotationType)'):
+        'callers pass elements of namespace.annotation_types or the annotation_type of an '
+        'annotation, which the IR constructs as AnnotationType instances only',
+}
 
 def run(pm, ctx):
     for r, t in (('C09-R1', 'emission order: define before module-level use'),
@@ -380,3 +389,5 @@ def run(pm, ctx):
               '(prefix, not initial_prefix)', ad.loc,
               msg='alias doc comment prefixing changed: wrapped continuation lines would be bare '
                   'text in the module', key='C09-R5|%s|doc-prefix' % ad.qualname)
+    totality.run_pack(pm, ctx, 'C09-R6', ('stone.backends.python_helpers', 'stone.backends.python_types'),
+                      True, 'python_types and python_helpers', TOTALITY_PRECONDITIONS, (60, 6, 0))
